@@ -45,6 +45,14 @@ def client_program(rng, c, avoid, hc_names):
         for _ in range(rng.choice([0, 0, 1, 2])):
             # pure reads of public properties at arbitrary points of the build: not part of the specification
             prog.insert(rng.randint(2, len(prog)), {'op': 'read_props', 'lf': lfi['lf'], 'c': c})
+    if 'ghost_object' not in avoid and rng.random() < 0.2:
+        # a call that is rejected while the client carries on: not part of anybody's specification
+        from . import c20
+        sb = c20.schema_bad(rng, lfi, 0) if rng.random() < 0.6 else None
+        if sb is None:
+            sb = c20.bad_op(rng, gen.pick(rng, c20.BAD_KINDS), lfi, spec, 0)
+        bop = dict(sb[0], h='c%d_bad' % c, c=c)
+        prog.insert(rng.randint(3, len(prog)), bop)
     nw = rng.choice([1, 2, 2, 3])
     if 'second_write_param' in avoid and any(op.get('kind') in ('parameter', 'computation') and 'values' in op.get('kwargs', {})
                                              for op in prog):
@@ -58,6 +66,9 @@ def client_program(rng, c, avoid, hc_names):
         w = gen.write_op(spec, path='c%d_%d.dlis' % (c, k), ocs=rng.choice([spec.mrl, spec.mrl + 64, 1 << 20]))
         if ext is not None and (k == 0 or ext_mode == 'every'):
             w['data'] = ext
+            if k > 0 and rng.random() < 0.5:
+                # a later write brings the datasets with other element types
+                w['data'] = gen.data_variant(rng, ext) or ext
         rows_c = gen.max_rows(spec)
         minrows_c = min([(op['kwargs'].get('data') or {}).get('$arr', {}).get('shape', [rows_c])[0] for op in spec.ops
                          if op.get('op') == 'add' and op.get('kind') == 'channel'] or [rows_c])
@@ -68,7 +79,20 @@ def client_program(rng, c, avoid, hc_names):
             w['to_idx'] = rng.randint(a + 1, minrows_c)
         if rng.random() < 0.3:
             w['input_chunk_size'] = rng.choice([1, 2, 5])
+        if rng.random() < 0.15:
+            # a failed attempt first (I/O error or interrupt at a seeded point): it must leave nothing behind for anybody
+            fk = rng.choice(['open_fail', 'write_fail', 'write_fail', 'close_fail', 'interrupt', 'interrupt'])
+            if fk == 'interrupt':
+                fault = {'kind': 'interrupt', 'at_line': rng.randint(1, 4000)}
+            else:
+                fault = {'kind': fk, 'at_event': {'open_fail': 0, 'close_fail': rng.choice([2, 3, 5])}.get(fk, rng.choice([1, 2, 3])),
+                         'errno': rng.choice([5, 28]), 'partial': rng.choice([0, 7, 80]), 'lose': 0}
+            prog.append(dict(copy.deepcopy(w), path='c%d_%df.dlis' % (c, k), faults=[fault]))
         prog.append(w)
+        if k + 1 < nw and ext is not None and ext_mode == 'every' and rng.random() < 0.5:
+            bop = gen.rejected_assignment(rng, [o for o in spec.ops if o.get('op') == 'add'], c=c, p_channel=0.9)
+            if bop:
+                prog.append(bop)
         if k + 1 < nw:
             r = rng.random()
             if r < 0.35:
@@ -84,6 +108,11 @@ def client_program(rng, c, avoid, hc_names):
                 s2.lfs = spec.lfs
                 genmeta.Meta(s2, lfi, rng, hc=hc_names).add(gen.pick(rng, ['zone', 'comment', 'message', 'equipment']))
                 prog.extend(s2.ops)
+            elif r < 0.85 and r >= 0.7:
+                # an assignment that is rejected while the client carries on
+                bop = gen.rejected_assignment(rng, [o for o in spec.ops if o.get('op') == 'add'], c=c)
+                if bop:
+                    prog.append(bop)
             elif r < 0.7 and 'obname_memo' not in avoid:
                 cands = [op for op in spec.ops if op.get('op') == 'add' and op['kind'] in ('zone', 'equipment', 'channel')]
                 if cands:
@@ -180,6 +209,12 @@ def check_case(case, ex):
         C.bump(stats['probes'], 'writes_compared')
         C.bump(stats['probes'], 'history_' + hclass)
         if st2 is None:
+            continue
+        if wop.get('faults') and st.get('faults_fired'):
+            # the failed attempt itself is C12's and C20's subject; what it leaves behind shows in the later writes
+            C.bump(stats['probes'], 'failed_attempt_in_history')
+            for fk in st['faults_fired']:
+                C.bump(stats['faults'], fk)
             continue
         if st['out'] != st2['out']:
             out.append(C.V('C14.outcome_differs', dict(fp, got=st['out'], exc=st.get('exc') or st2.get('exc')),
